@@ -128,7 +128,7 @@ theorem generateLatest_eq (fs : List Family) : generateLatest fs = renderLines (
 structure FamOK (legacy : Bool) (pyInt : Str → Option Int) (pyFloat : Str → Option Nat) (fam : Family) : Prop where
   /-- one of `METRIC_TYPES` (enforced by `Metric.__init__`) -/
   typ : metricTypes.contains fam.typ = true
-  /-- accepted by `_validate_metric_name` (enforced by `Metric.__init__`), and not an F2 name -/
+  /-- accepted by `_validate_metric_name` (enforced by `Metric.__init__`) -/
   name : metricNameOK legacy fam.name = true
   samples : ∀ s ∈ fam.samples, SampleGood legacy pyInt pyFloat s
 
@@ -152,21 +152,9 @@ theorem matchExact_append {n suf : Str} (h : matchExact metricNameRe n = true) (
 
 theorem metricNameOK_append {legacy : Bool} {n suf : Str} (h : metricNameOK legacy n = true) (hs : LegacyWord suf) :
     metricNameOK legacy (n ++ suf) = true := by
-  by_cases hsuf : suf = []
-  · subst hsuf; simpa using h
   have hne := metricNameOK_ne_nil h
   have hval := metricNameOK_validate h
-  unfold metricNameOK at h ⊢
-  simp only [Bool.and_eq_true, Bool.not_eq_true', Bool.and_eq_false_iff] at h ⊢
-  have hlast : (n ++ suf).getLast? ≠ some '\n' := by
-    rw [List.getLast?_append]
-    cases hl : suf.getLast? with
-    | none => exact absurd (List.getLast?_eq_none_iff.mp hl) hsuf
-    | some b =>
-      simp only [Option.some_or]
-      intro e; cases e
-      exact legacyChar_ne (hs _ (List.mem_of_getLast? hl)) (by decide) rfl
-  refine ⟨?_, Or.inr (by simpa using hlast)⟩
+  unfold metricNameOK
   unfold validateMetricName at hval ⊢
   have hne' : (n ++ suf).isEmpty = false := by cases n <;> simp at hne ⊢
   have hne'' : n.isEmpty = false := by cases n <;> simp at hne ⊢
@@ -175,14 +163,10 @@ theorem metricNameOK_append {legacy : Bool} {n suf : Str} (h : metricNameOK lega
   · subst hl
     simp only [Bool.true_and] at hval ⊢
     by_cases hm : matchName metricNameRe full_validate_metric_name n = true
-    · have hn : n.getLast? ≠ some '\n' := by
-        rcases h.2 with h2 | h2
-        · have : isValidLegacyMetricName n = true := hm
-          rw [this] at h2; exact absurd h2 (by decide)
-        · simpa using h2
-      have := matchExact_matchName (full := full_validate_metric_name) (matchExact_append (matchName_exact hm hn) hs)
+    · have := matchExact_matchName (full := full_validate_metric_name)
+        (matchExact_append (matchName_exact_of_fixed rfl hm) hs)
       simp [this, isOk]
-    · simp [hm, isOk] at hval
+    · simp [hm] at hval
   · have : legacy = false := by simpa using hl
     subst this
     simp [isOk]
@@ -318,5 +302,267 @@ theorem text_roundtrip_samples (legacy : Bool) (pyInt : Str → Option Int) (pyF
   intro l hl
   obtain ⟨fam, hf, hlf⟩ := List.mem_flatMap.mp hl
   exact famDocLines_ok (h fam hf) l hlf
+
+-- families -----------------------------------------------------------------------------------------------------------------
+
+/-- a HELP/TYPE block of the exposition with its sample lines -/
+structure Block where
+  name : Str
+  typ : Str
+  doc : Str
+  samples : List Sample
+
+def Block.lines (b : Block) : List DocLine := [.help b.name b.doc, .type b.name b.typ] ++ b.samples.map .sample
+
+/-- the blocks `generate_latest` writes for one family: the munged main block, then one gauge block per trailing suffix -/
+def famBlocks (fam : Family) : List Block :=
+  ⟨(munge fam.name fam.typ).1, (munge fam.name fam.typ).2, fam.doc, fam.samples.filter (fun s => (trailingOf fam s).isNone)⟩ ::
+    (sortByKey (omSamples fam)).map (fun e => ⟨fam.name ++ e.1, "gauge".toList, fam.doc, e.2⟩)
+
+theorem famDocLines_blocks (fam : Family) : famDocLines fam = (famBlocks fam).flatMap Block.lines := by
+  unfold famDocLines famBlocks Block.lines
+  simp [List.flatMap_map]
+
+/-- the family the parser is documented to build from a block: a counter block loses the `_total` of its name, `untyped`
+reads as `unknown`, help up to trailing blanks, the samples of the block -/
+def blockFamily (pyFloat : Str → Option Nat) (b : Block) : PFamily :=
+  ⟨if b.typ == "counter".toList then b.name.take (b.name.length - 6) else b.name, helpDoc b.doc,
+   if b.typ == "untyped".toList then "unknown".toList else b.typ, b.samples.map (expSample pyFloat)⟩
+
+/-- the state after the lines of a block -/
+def blockState (pyFloat : Str → Option Nat) (b : Block) : St :=
+  { name := b.name, doc := helpDoc b.doc, typ := b.typ, samples := b.samples.map (expSample pyFloat),
+    allowed := (allowedSuffixes b.typ).map (b.name ++ ·) }
+
+structure BlockOK (legacy : Bool) (pyInt : Str → Option Int) (pyFloat : Str → Option Nat) (b : Block) : Prop where
+  name : metricNameOK legacy b.name = true
+  typ : TypWord b.typ
+  /-- `build_metric` succeeds and gives the documented family -/
+  build : ∀ doc samples, buildMetric legacy b.name doc b.typ samples =
+    .ok ⟨if b.typ == "counter".toList then b.name.take (b.name.length - 6) else b.name, doc,
+         if b.typ == "untyped".toList then "unknown".toList else b.typ, samples⟩
+  samples : ∀ s ∈ b.samples, SampleGood legacy pyInt pyFloat s
+  /-- regular: every sample name is in the allowed set of the block's type -/
+  regular : ∀ s ∈ b.samples, ((allowedSuffixes b.typ).map (b.name ++ ·)).contains s.name = true
+
+theorem flush_blockState {legacy : Bool} {pyInt : Str → Option Int} {pyFloat : Str → Option Nat} {b : Block}
+    (h : BlockOK legacy pyInt pyFloat b) : flush legacy (blockState pyFloat b) = .ok [blockFamily pyFloat b] := by
+  unfold flush blockState blockFamily
+  have : b.name.isEmpty = false := by
+    have := metricNameOK_ne_nil h.name
+    cases hn : b.name <;> simp_all
+  simp only [this, Bool.false_eq_true, ↓reduceIte, h.build, bind, Except.bind]
+  rfl
+
+/-- the sample lines of a regular block are appended to the open family -/
+theorem run_block_samples (legacy : Bool) (pyInt : Str → Option Int) (pyFloat : Str → Option Nat) :
+    ∀ (ss : List Sample) (st : St) (acc : List PFamily), (∀ s ∈ ss, SampleGood legacy pyInt pyFloat s) →
+      (∀ s ∈ ss, st.allowed.contains s.name = true) →
+      runLines legacy pyInt pyFloat ((ss.map DocLine.sample).map DocLine.content) st acc =
+        .ok ({ st with samples := st.samples ++ ss.map (expSample pyFloat) }, acc) := by
+  intro ss
+  induction ss with
+  | nil => intro st acc _ _; simp [runLines]; rfl
+  | cons s ss ih =>
+    intro st acc hg ha
+    simp only [List.map_cons, runLines, DocLine.content]
+    rw [stepLine_sample legacy pyInt pyFloat st (hg s (by simp))]
+    have : (!st.allowed.contains s.name) = false := by rw [ha s (by simp)]; rfl
+    simp only [this, Bool.false_eq_true, ↓reduceIte, bind, Except.bind, pure, Except.pure, List.append_nil]
+    have := ih { st with samples := st.samples ++ [expSample pyFloat s] } acc (fun x hx => hg x (by simp [hx]))
+      (fun x hx => ha x (by simp [hx]))
+    rw [this]
+    simp
+
+/-- **one block**: from any flushable state with a different family name, the lines of a regular block yield the pending
+family (if any) and leave the block open -/
+theorem run_block (legacy : Bool) (pyInt : Str → Option Int) (pyFloat : Str → Option Nat) (b : Block)
+    (hb : BlockOK legacy pyInt pyFloat b) (st : St) (acc out : List PFamily) (hflush : flush legacy st = .ok out)
+    (hne : st.name ≠ b.name) :
+    runLines legacy pyInt pyFloat (b.lines.map DocLine.content) st acc = .ok (blockState pyFloat b, acc ++ out) := by
+  unfold Block.lines
+  simp only [List.map_append, List.map_cons, List.map_nil, List.cons_append, List.nil_append, runLines, DocLine.content]
+  rw [stepLine_help legacy pyInt pyFloat st hb.name b.doc]
+  have h1 : (b.name != st.name) = true := by simpa using Ne.symm hne
+  simp only [h1, ↓reduceIte, hflush, bind, Except.bind, pure, Except.pure]
+  rw [stepLine_type legacy pyInt pyFloat _ hb.name hb.typ]
+  have h2 : (b.name != b.name) = false := by simp
+  simp only [h2, Bool.false_eq_true, ↓reduceIte, bind, Except.bind, pure, Except.pure, List.append_nil]
+  rw [run_block_samples legacy pyInt pyFloat b.samples _ _ hb.samples hb.regular]
+  simp [blockState]
+
+
+theorem runLines_append (legacy : Bool) (pyInt : Str → Option Int) (pyFloat : Str → Option Nat) (l1 l2 : List Str) :
+    ∀ (st : St) (acc : List PFamily), runLines legacy pyInt pyFloat (l1 ++ l2) st acc =
+      (runLines legacy pyInt pyFloat l1 st acc >>= fun r => runLines legacy pyInt pyFloat l2 r.1 r.2) := by
+  induction l1 with
+  | nil => intro st acc; rfl
+  | cons l ls ih =>
+    intro st acc
+    simp only [List.cons_append, runLines]
+    cases stepLine legacy pyInt pyFloat st l with
+    | error e => rfl
+    | ok r => simp only [bind, Except.bind]; exact ih _ _
+
+/-- the end of `text_fd_to_metric_families`: the last open family is yielded -/
+def finish (legacy : Bool) (r : PyM (St × List PFamily)) : PyM (List PFamily) := do
+  let (st, acc) ← r
+  let last ← flush legacy st
+  pure (acc ++ last)
+
+theorem textParse_eq_finish (legacy : Bool) (pyInt : Str → Option Int) (pyFloat : Str → Option Nat) (text : Str) :
+    textParse legacy pyInt pyFloat text = finish legacy (runLines legacy pyInt pyFloat (splitLines text) St.init []) := rfl
+
+/-- consecutive blocks carry different names -/
+def NamesDiffer : List Block → Prop
+  | [] => True
+  | [_] => True
+  | b :: b' :: bs => b.name ≠ b'.name ∧ NamesDiffer (b' :: bs)
+
+instance : (bs : List Block) → Decidable (NamesDiffer bs)
+  | [] => isTrue trivial
+  | [_] => isTrue trivial
+  | b :: b' :: bs =>
+    have : Decidable (NamesDiffer (b' :: bs)) := instDecidableNamesDiffer (b' :: bs)
+    by unfold NamesDiffer; infer_instance
+
+theorem run_blocks (legacy : Bool) (pyInt : Str → Option Int) (pyFloat : Str → Option Nat) :
+    ∀ (bs : List Block) (b : Block) (st : St) (acc out : List PFamily),
+      (∀ x ∈ b :: bs, BlockOK legacy pyInt pyFloat x) → NamesDiffer (b :: bs) → flush legacy st = .ok out → st.name ≠ b.name →
+      finish legacy (runLines legacy pyInt pyFloat (((b :: bs).flatMap Block.lines).map DocLine.content) st acc) =
+        .ok (acc ++ out ++ (b :: bs).map (blockFamily pyFloat)) := by
+  intro bs
+  induction bs with
+  | nil =>
+    intro b st acc out hok _ hfl hne
+    simp only [List.flatMap_cons, List.flatMap_nil, List.append_nil]
+    rw [run_block legacy pyInt pyFloat b (hok b (by simp)) st acc out hfl hne]
+    simp only [finish, bind, Except.bind, flush_blockState (hok b (by simp))]
+    rfl
+  | cons b' bs ih =>
+    intro b st acc out hok hnd hfl hne
+    rw [List.flatMap_cons, List.map_append, runLines_append,
+      run_block legacy pyInt pyFloat b (hok b (by simp)) st acc out hfl hne]
+    simp only [bind, Except.bind]
+    have := ih b' (blockState pyFloat b) (acc ++ out) [blockFamily pyFloat b] (fun x hx => hok x (by simp [hx])) hnd.2
+      (flush_blockState (hok b (by simp))) hnd.1
+    rw [this]
+    simp
+
+
+theorem build_explicit {legacy : Bool} {name typ : Str}
+    (hv : validateMetricName legacy (if typ == "counter".toList then name.take (name.length - 6) else name) = .ok ())
+    (hc : typ = "counter".toList → endsWith totalSuffix name = true)
+    (ht : typ = "counter".toList ∨ typ = "gauge".toList ∨ typ = "summary".toList ∨ typ = "histogram".toList ∨
+      typ = "untyped".toList) :
+    ∀ doc samples, buildMetric legacy name doc typ samples =
+      .ok ⟨if typ == "counter".toList then name.take (name.length - 6) else name, doc,
+           if typ == "untyped".toList then "unknown".toList else typ, samples⟩ := by
+  intro doc samples
+  unfold buildMetric
+  have hm : metricTypes.contains (if typ == "untyped".toList then "unknown".toList else typ) = true := by
+    rcases ht with h | h | h | h | h <;> (subst h; decide)
+  by_cases hcnt : typ = "counter".toList
+  · subst hcnt
+    have h1 : ("counter".toList == "counter".toList) = true := by decide
+    simp only [h1, ↓reduceIte, hc rfl] at hv ⊢
+    simp only [hv, bind, Except.bind, hm, Bool.not_true, Bool.false_eq_true, ↓reduceIte]
+    rfl
+  · have h1 : (typ == "counter".toList) = false := by simpa using hcnt
+    simp only [h1, Bool.false_eq_true, ↓reduceIte] at hv ⊢
+    simp only [hv, bind, Except.bind, hm, Bool.not_true, Bool.false_eq_true, ↓reduceIte]
+    rfl
+
+/-- regular family: every sample name lies in the allowed set of the block that carries it -/
+def RegularFam (fam : Family) : Prop :=
+  ∀ b ∈ famBlocks fam, ∀ s ∈ b.samples, ((allowedSuffixes b.typ).map (b.name ++ ·)).contains s.name = true
+
+instance (fam : Family) : Decidable (RegularFam fam) := by unfold RegularFam; infer_instance
+
+theorem famBlocks_ok {legacy : Bool} {pyInt : Str → Option Int} {pyFloat : Str → Option Nat} {fam : Family}
+    (h : FamOK legacy pyInt pyFloat fam) (hr : RegularFam fam) : ∀ b ∈ famBlocks fam, BlockOK legacy pyInt pyFloat b := by
+  obtain ⟨suf, mtype, hm, hsuf, htw, hcases⟩ := munge_cases (n := fam.name) h.typ
+  have hname := metricNameOK_append h.name hsuf
+  intro b hb
+  have hreg := hr b hb
+  unfold famBlocks at hb
+  rw [hm] at hb
+  rcases List.mem_cons.mp hb with hb | hb
+  · subst hb
+    refine ⟨hname, htw, ?_, fun s hs => h.samples s (List.mem_filter.mp hs).1, hreg⟩
+    apply build_explicit
+    · rcases hcases with ⟨h1, h2⟩ | h1 | h1 | h1 | h1
+      · subst h1; subst h2
+        have : (fam.name ++ totalSuffix).take ((fam.name ++ totalSuffix).length - 6) = fam.name := by
+          have : (fam.name ++ totalSuffix).length - 6 = fam.name.length := by simp [totalSuffix]
+          rw [this, List.take_left]
+        simp only [beq_self_eq_true, ↓reduceIte, this]
+        exact metricNameOK_validate h.name
+      all_goals
+        have hne : (mtype == "counter".toList) = false := by subst h1; decide
+        simp only [hne, Bool.false_eq_true, ↓reduceIte]
+        exact metricNameOK_validate hname
+    · intro hc
+      rcases hcases with ⟨_, h2⟩ | h1 | h1 | h1 | h1
+      · subst h2; exact endsWith_append _ _
+      all_goals
+        have hc' : mtype = "counter".toList := hc
+        rw [h1] at hc'
+        exact absurd hc' (by decide)
+    · rcases hcases with ⟨h1, _⟩ | h1 | h1 | h1 | h1
+      · exact Or.inl h1
+      · exact Or.inr (Or.inl h1)
+      · exact Or.inr (Or.inr (Or.inl h1))
+      · exact Or.inr (Or.inr (Or.inr (Or.inl h1)))
+      · exact Or.inr (Or.inr (Or.inr (Or.inr h1)))
+  · obtain ⟨e, he, rfl⟩ := List.mem_map.mp hb
+    have hp := sortByKey_perm (omSamples fam)
+    obtain ⟨hsufe, hse⟩ := omSamples_mem fam e (hp.mem_iff.mp he)
+    have hne := metricNameOK_append h.name (trailingSuffixes_legacy e.1 hsufe)
+    refine ⟨hne, (show TypWord "gauge".toList by decide), ?_, fun s hs => h.samples s (hse s hs), hreg⟩
+    apply build_explicit
+    · have : ("gauge".toList == "counter".toList) = false := by decide
+      simp only [this, Bool.false_eq_true, ↓reduceIte]
+      exact metricNameOK_validate hne
+    · intro hc; exact absurd (show "gauge".toList = "counter".toList from hc) (by decide)
+    · exact Or.inr (Or.inl rfl)
+
+/-- the documented family list: per exposed family the munged main family, then the trailing gauge families -/
+def mungeText (pyFloat : Str → Option Nat) (fs : List Family) : List PFamily :=
+  (fs.flatMap famBlocks).map (blockFamily pyFloat)
+
+/-- **document-level round trip, families**: for an expressible registry whose families are regular (sample names within
+the suffix set of the written type) and whose consecutive written family names differ, the exposition parses to exactly
+the documented families -/
+theorem text_roundtrip_families (legacy : Bool) (pyInt : Str → Option Int) (pyFloat : Str → Option Nat) (fs : List Family)
+    (h : Expressible legacy pyInt pyFloat fs) (hr : ∀ fam ∈ fs, RegularFam fam) (hd : NamesDiffer (fs.flatMap famBlocks)) :
+    textParse legacy pyInt pyFloat (generateLatest fs) = .ok (mungeText pyFloat fs) := by
+  have hlines : fs.flatMap famDocLines = (fs.flatMap famBlocks).flatMap Block.lines := by
+    rw [List.flatMap_assoc]
+    congr 1; funext fam; exact famDocLines_blocks fam
+  have hok : ∀ b ∈ fs.flatMap famBlocks, BlockOK legacy pyInt pyFloat b := by
+    intro b hb
+    obtain ⟨fam, hf, hbf⟩ := List.mem_flatMap.mp hb
+    exact famBlocks_ok (h fam hf) (hr fam hf) b hbf
+  have hlok : ∀ l ∈ fs.flatMap famDocLines, LineOK legacy pyInt pyFloat l := by
+    intro l hl
+    obtain ⟨fam, hf, hlf⟩ := List.mem_flatMap.mp hl
+    exact famDocLines_ok (h fam hf) l hlf
+  have hsplit : splitLines (renderLines (fs.flatMap famDocLines)) = (fs.flatMap famDocLines).map DocLine.content := by
+    unfold renderLines
+    apply splitLines_flatten
+    intro c hc
+    obtain ⟨l, hl, e⟩ := List.mem_map.mp hc
+    rw [← e]; exact newline_not_mem_content (hlok l hl)
+  rw [generateLatest_eq, textParse_eq_finish, hsplit, hlines]
+  unfold mungeText
+  cases hbs : fs.flatMap famBlocks with
+  | nil => rfl
+  | cons b bs =>
+    rw [hbs] at hok hd
+    have hb := hok b (by simp)
+    have := run_blocks legacy pyInt pyFloat bs b St.init [] [] hok hd rfl
+      (fun e => metricNameOK_ne_nil hb.name e.symm)
+    rw [this]; rfl
 
 end PromVerif.Lemmas.TextParse
